@@ -474,7 +474,7 @@ class WireWorld(World):
                    "only byte-format memoryview annotation values are generated",
                    "a caller-supplied FLAGS_COMPRESSED / FLAGS_CORR_ID bit is treated as 'managed by the codec' (10% of messages)",
                    "retryable errnos come in bursts of at most 3; timeouts are not part of this property"]
-    QUICK_RUNS = 10000
+    QUICK_RUNS = 8000
     CHUNK = 250
     SHRINK_LISTS = ["cases"]
 
